@@ -367,4 +367,45 @@ def sqrtremLarge (x : Nat) (y0 : Int) : Int × Int :=
   let r := sqrtremDown (y.toNat + 1) y rem
   if r.2 ≠ 0 then sqrtremUp (x + 1) r.1 r.2 else r
 
+/-! ## reference values for float-path functions at integer arguments
+
+`binomial`, `rf`, `ff`, `bell` (mpmath/functions/factorials.py, functions.py) and `bernfrac` (gammazeta.py) have no integer
+code path: they go through `gammaprod`, the Dobinski series and `mpf_bernoulli`.  The functions below are NOT models of that
+code; they are the exact reference values the driver answers with (`w_binomial`, `w_rf`, `w_ff`, `w_bell`, `bernfrac`). -/
+
+/-- generalised binomial coefficient `C(n,k)` for integer `n`, `k` (0 for `k < 0`), running product
+`t ← t*(n-j) // (j+1)` (each division is exact) -/
+def binomialRef (n k : Int) : Int :=
+  if k < 0 then 0 else (List.range k.toNat).foldl (fun t (j : Nat) => (t * (n - (j : Int))).fdiv ((j : Int) + 1)) 1
+
+/-- rising factorial `x (x+1) ⋯ (x+n-1)` -/
+def rfRef (x : Int) (n : Nat) : Int := (List.range n).foldl (fun v (i : Nat) => v * (x + (i : Int))) 1
+
+/-- falling factorial `x (x-1) ⋯ (x-n+1)` -/
+def ffRef (x : Int) (n : Nat) : Int := (List.range n).foldl (fun v (i : Nat) => v * (x - (i : Int))) 1
+
+/-- `[B(0), …, B(n-1)]` Bell numbers by `B(m+1) = ∑_{i ≤ m} C(m,i) B(m-i)` -/
+def bellTable : Nat → List Int
+  | 0 => []
+  | n+1 =>
+    let t := bellTable n
+    t ++ [if n = 0 then 1 else
+      ((List.range n).map (fun (i : Nat) => binomialRef ((n - 1 : Nat) : Int) (i : Int) * t.getD (n - 1 - i) 0)).sum]
+
+def bellRef (n : Nat) : Int := (bellTable (n + 1)).getD n 0
+
+/-- `[B_0, …, B_{n-1}]` Bernoulli numbers (`B_1 = -1/2`) by the exact rational recurrence
+`B_m = -(1/(m+1)) ∑_{k<m} C(m+1,k) B_k` -/
+def bernTable : Nat → List Rat
+  | 0 => []
+  | n+1 =>
+    let t := bernTable n
+    t ++ [if n = 0 then 1 else
+      -(((List.range n).map (fun (k : Nat) => ((binomialRef ((n + 1 : Nat) : Int) (k : Int) : Int) : Rat) * t.getD k 0)).sum) / ((n + 1 : Nat) : Rat)]
+
+/-- `bernfrac(n)` reference: reduced numerator and denominator of `B_n` -/
+def bernfracRef (n : Nat) : Int × Nat :=
+  let b := (bernTable (n + 1)).getD n 0
+  (b.num, b.den)
+
 end Mp
